@@ -300,6 +300,7 @@ pub fn run(run: &Run) {
         run.add_distinct(vals.len() as u64);
         run.sample(json!({"format": f.name, "value": vals[vals.len() / 2].show()}));
         vals.par_iter().for_each(|v| {
+            let _w = crate::watch::enter(&v.show());
             run.eval(1);
             let r = quiet_catch(AssertUnwindSafe(|| case_enum(&f, v)));
             let r = match r { Ok(x) => x, Err(p) => Err(format!("panic: {p}")) };
@@ -323,6 +324,7 @@ pub fn run(run: &Run) {
         lv.extend(lexu::u_sent(&f));
         run.add_distinct(lv.len() as u64);
         lv.par_iter().for_each(|x| {
+            let _w = crate::watch::enter(&format!("{x:?}"));
             run.eval(1);
             let r = quiet_catch(AssertUnwindSafe(|| case_lex(&f, x)));
             let r = match r { Ok(x) => x, Err(p) => Err(format!("panic: {p}")) };
